@@ -1,6 +1,7 @@
 """Run a family of Engine-M kernels over a grid of shapes, replay counterexamples natively, validate
 the translator, and fold everything into the Verdict."""
 import math
+import re
 import random
 import time
 from fractions import Fraction
@@ -119,6 +120,21 @@ def replay_case_file(E, prop, path):
     import json
     c = json.load(open(path))
     k = KERNELS[c["kernel"]]
+    if c.get("kind") == "i32in":        # element-type case: the kernel on a Vec<i32> input
+        p = replay._get()
+        p.stdin.write(f"i32in {k.native} {c['window']} {c['min_periods']} {','.join(str(t) for t in c['x'])}\n")
+        p.stdin.flush()
+        got = p.stdout.readline().strip()
+        bad = got.startswith("PANIC")
+        if not bad:
+            vals = [float("nan") if t == "nan" else float(t) for t in got.split()]
+            x = [float(t) for t in c["x"]]
+            for i in range(len(x)):
+                acc = expected_numeric(E, k, x, None, c["window"], c["min_periods"], i)
+                if acc and not any(replay.close(vals[i], a_, 1e-6) for a_ in acc):
+                    bad = True
+        log(("REPRODUCED " if bad else "passes ") + f"{path}: {k.native} on i32 input {c['x']} -> {got[:160]}")
+        return 1 if bad else 0
     if c.get("kind") == "prefix":       # C06 relational case: the function on the whole series and on its first `cut` elements
         C = c["cut"]
         full = replay.native(k.native, c["window"], c["min_periods"], c["x"], c["y"])
@@ -243,3 +259,75 @@ def run_family(v, E, prop, names, tier, shapes, opts=None, flags_only=False, pos
         v.harness_table.append({"kernel": name, "fn": k.fn, "shapes": nshapes, "queries": q, "unknown": unknown,
                                 "wall_s": round(dt, 2)})
         log(f"  [M] {name}: shapes={nshapes} queries={q} unknown={unknown} {dt:.1f}s" + (" FAIL" if reported else ""))
+
+
+def elem_type_pass(v, E, prop, names, opts=None):
+    """Arithmetic in the ELEMENT type. The kernels are generic over the element type and Engine M reads every operation over the
+    reals, which is exact for f64 inputs only as long as no operation happens *before* the cast to f64. Any `T x T` operation the
+    execution meets is recorded; for the element type i32 (statement: element types f64 / f32 / i32 / i64) z3 is asked for integer
+    inputs within the i32 range for which that operation leaves the i32 range (overflow: a panic in a debug build, a wrapped value
+    in a release build). A model is replayed natively on a Vec<i32> input against the from-scratch statistic."""
+    only = (opts or {}).get("only")
+    I32 = 2 ** 31 - 1
+    for name in names:
+        if only and not re.search(only, name):
+            continue
+        k = KERNELS[name]
+        L, w, mp = 3, 2, 1
+        mask = [True] * L
+        try:
+            r = E.run_kernel(k.fn, w, mp, mask, None)
+        except (ExecError, MirError) as e:
+            v.inconcl(f"{name}: cannot encode for the element-type pass ({e})")
+            continue
+        ops = getattr(r.ex, "elem_ops", [])
+        v.evaluations += 1
+        if not ops:
+            v.nontrivial += 1          # no arithmetic before the cast: the real-number reading is exact for every integer element type
+            continue
+        xs = r.series["self"]
+        box = []
+        for x in xs:
+            box += [smt.le(smt.const(-I32), x.num), smt.le(x.num, smt.const(I32))]
+        hit = None
+        for pc, op, a, b, callee in ops:
+            if not (a.den.is_const and b.den.is_const and a.den.val == 1 and b.den.val == 1):
+                continue
+            val = {"mul": smt.mul, "add": smt.add, "sub": smt.sub}[op](a.num, b.num)
+            st, model = E.ask(box + [pc, smt.or_(smt.gt(val, smt.const(I32)), smt.lt(val, smt.const(-I32 - 1)))])
+            v.evaluations += 1
+            if st == "sat":
+                hit = (op, model, callee)
+                break
+            if st == "unknown":
+                v.inconcl(f"{name}: solver unknown for element-type {op}")
+        if hit is None:
+            v.nontrivial += 1
+            continue
+        op, model, callee = hit
+        key = f"{name}::arithmetic in the element type ({op}) overflows for i32 input"
+        if v.is_known(key):
+            v.note_known(key)
+            continue
+        xi = [int(round(float(model.get(f"x{j}", 0)))) for j in range(L)]
+        p = replay._get()
+        p.stdin.write(f"i32in {k.native} {w} {mp} {','.join(str(t) for t in xi)}\n")
+        p.stdin.flush()
+        got = p.stdout.readline().strip()
+        x = [float(t) for t in xi]
+        bad = None
+        if got.startswith("PANIC"):
+            bad = f"{k.native}(w={w}, mp={mp}) on the i32 series {xi} panics: {got[6:120]}"
+        else:
+            vals = [float("nan") if t == "nan" else float(t) for t in got.split()]
+            for i in range(L):
+                acc = expected_numeric(E, k, x, None, w, mp, i)
+                if acc and not any(replay.close(vals[i], a_, 1e-6) for a_ in acc):
+                    bad = f"{k.native}(w={w}, mp={mp}) on the i32 series {xi}: position {i} is {vals[i]}, definition gives {acc}"
+                    break
+        path = replay.save_case(prop, f"elemtype_{name}", {"property": prop, "kind": "i32in", "kernel": name, "native_fn": k.native, "window": w,
+                                                          "min_periods": mp, "x": xi, "native": got, "solver_message": f"{op} in the element type ({callee})"})
+        if bad:
+            v.failure(key, path, bad)
+        else:
+            v.inconcl(f"{name}: element-type overflow model {xi} does not show natively; case {path}")
